@@ -102,12 +102,26 @@ impl WalRecuperator {
 
     /// Run all the redo.
     pub(crate) fn run_redo(&mut self, analysis: &AnalysisResult) -> RuntimeResult<()> {
+        // Reapply the operations of the committed transactions in the order they were logged,
+        // whichever transaction they belong to: transactions interleave, and a later one may depend
+        // on what an earlier record of another one did (object ids and row ids are handed out in
+        // log order).
+        let mut lsns = Vec::new();
         for redo_transaction in analysis.needs_redo.iter() {
-            // Reapply all the operations of this transaction
-            for lsn in analysis.try_iter_lsn(redo_transaction).ok_or(IoError::new(
-                ErrorKind::NotSeekable,
-                "transaction not found in th write ahead analysis",
-            ))? {
+            lsns.extend(
+                analysis
+                    .try_iter_lsn(redo_transaction)
+                    .ok_or(IoError::new(
+                        ErrorKind::NotSeekable,
+                        "transaction not found in th write ahead analysis",
+                    ))?
+                    .copied(),
+            );
+        }
+        lsns.sort_unstable();
+
+        {
+            for lsn in lsns.iter() {
                 if let Some(create_operation) = analysis.create_ops.get(&lsn) {
                     self.redo_create(create_operation)?;
                 }
@@ -146,13 +160,39 @@ impl WalRecuperator {
             return Ok(());
         }
 
+        // The object must get the id it was logged with: the records that follow refer to it.
+        // (Ids taken by transactions that never committed are not on disk, so the counter may lag.)
+        let logged_id = create_op.row_id();
+        let counter_before = self
+            .dml_executor
+            .ctx()
+            .pager()
+            .read()
+            .get_last_stored_object();
+        if let Some(id) = logged_id {
+            self.dml_executor
+                .ctx()
+                .pager()
+                .write()
+                .set_last_stored_object(id);
+        }
+        let restore_counter = |this: &Self| {
+            let pager = this.dml_executor.ctx().pager();
+            let after = pager.read().get_last_stored_object();
+            if after < counter_before {
+                pager.write().set_last_stored_object(counter_before);
+            }
+        };
+
         // Try to deserialize as CreateTableInstr first
         if let Ok(mut create_table_instr) = CreateTableInstr::from_bytes(redo_bytes) {
             // The table is already on disk if the crash hit a checkpoint after its
             // pages were written and before the log was truncated.
             create_table_instr.if_not_exists = true;
             let instr = DdlInstruction::CreateTable(create_table_instr);
-            self.ddl_executor.execute_instruction(&instr)?;
+            let result = self.ddl_executor.execute_instruction(&instr);
+            restore_counter(self);
+            result?;
             return Ok(());
         }
 
@@ -160,9 +200,12 @@ impl WalRecuperator {
         if let Ok(mut create_index_instr) = CreateIndexInstr::from_bytes(redo_bytes) {
             create_index_instr.if_not_exists = true;
             let instr = DdlInstruction::CreateIndex(create_index_instr);
-            self.ddl_executor.execute_instruction(&instr)?;
+            let result = self.ddl_executor.execute_instruction(&instr);
+            restore_counter(self);
+            result?;
             return Ok(());
         }
+        restore_counter(self);
 
         // Fallback: try generic DdlInstruction
         if let Ok(instruction) = DdlInstruction::from_bytes(redo_bytes) {
